@@ -1150,6 +1150,109 @@ class Expander:
                 t = T()
                 fdef.body = [t.visit(s) for s in fdef.body]
 
+
+    # ------------------------------------------------------------------ character-set constants
+    def substitute_charsets(self):
+        """`_WORD = frozenset('abc...')` (module or class level, bound once; also set displays, set(...), unions with `|` of
+        such constants) used as the right operand of `in` / `not in`: for a one-character left operand membership in the set
+        is membership in the string of its elements, which is the spelling the character rules read."""
+        def evaluate(node, env):
+            if isinstance(node, ast.Call) and isinstance(node.func, ast.Name) and node.func.id in ('frozenset', 'set') \
+                    and len(node.args) == 1 and not node.keywords:
+                a = node.args[0]
+                sv = strconst(a)
+                if sv is not None:
+                    return set(sv)
+                return evaluate(a, env) if isinstance(a, (ast.Set, ast.Tuple, ast.List, ast.Name, ast.BinOp)) else None
+            if isinstance(node, (ast.Set, ast.Tuple, ast.List)):
+                if node.elts and all(isinstance(e, ast.Constant) and isinstance(e.value, str) and len(e.value) == 1 for e in node.elts):
+                    return {e.value for e in node.elts}
+                return None
+            if isinstance(node, ast.Name):
+                return env.get(node.id)
+            if isinstance(node, ast.BinOp) and isinstance(node.op, ast.BitOr):
+                l, r = evaluate(node.left, env), evaluate(node.right, env)
+                return (l | r) if l is not None and r is not None else None
+            return None
+
+        def strconst(a):
+            import string as _string
+            if isinstance(a, ast.Constant) and isinstance(a.value, str):
+                return a.value
+            if isinstance(a, ast.Attribute) and isinstance(a.value, ast.Name) and a.value.id == 'string' \
+                    and a.attr in ('ascii_letters', 'ascii_lowercase', 'ascii_uppercase', 'digits', 'hexdigits', 'octdigits'):
+                return getattr(_string, a.attr)
+            if isinstance(a, ast.BinOp) and isinstance(a.op, ast.Add):
+                l, r = strconst(a.left), strconst(a.right)
+                return l + r if l is not None and r is not None else None
+            return None
+
+        def is_set_expr(node):
+            return (isinstance(node, ast.Call) and isinstance(node.func, ast.Name) and node.func.id in ('frozenset', 'set')) \
+                or isinstance(node, ast.Set) or (isinstance(node, ast.BinOp) and isinstance(node.op, ast.BitOr))
+
+        def lit(chars, at):
+            return ast.copy_location(ast.Constant(value=''.join(sorted(chars))), at)
+
+        stored_attrs = set()
+        for m in self.modules.values():
+            for n in ast.walk(m.tree):
+                if isinstance(n, ast.Attribute) and isinstance(n.ctx, (ast.Store, ast.Del)):
+                    stored_attrs.add(n.attr)
+        cls_sets = {}
+        for (mname, cname), cdef in self.classes.items():
+            env, counts = {}, {}
+            for st in cdef.body:
+                for x in ast.walk(st):
+                    if isinstance(x, ast.Name) and isinstance(x.ctx, ast.Store):
+                        counts[x.id] = counts.get(x.id, 0) + 1
+            for st in cdef.body:
+                if isinstance(st, ast.Assign) and len(st.targets) == 1 and isinstance(st.targets[0], ast.Name) \
+                        and counts.get(st.targets[0].id) == 1 and is_set_expr(st.value):
+                    v = evaluate(st.value, env)
+                    if v and st.targets[0].id not in stored_attrs:
+                        env[st.targets[0].id] = v
+            for k, v in env.items():
+                cls_sets.setdefault(k, []).append(v)
+        cls_sets = {k: v[0] for k, v in cls_sets.items() if len(v) == 1}
+        for mname, m in self.modules.items():
+            env, counts = {}, {}
+            for st in self._toplevel(m.tree.body):
+                for x in ast.walk(st):
+                    if isinstance(x, ast.Name) and isinstance(x.ctx, ast.Store):
+                        counts[x.id] = counts.get(x.id, 0) + 1
+            glob = {g for n in ast.walk(m.tree) if isinstance(n, ast.Global) for g in n.names}
+            for st in self._toplevel(m.tree.body):
+                if isinstance(st, ast.Assign) and len(st.targets) == 1 and isinstance(st.targets[0], ast.Name) \
+                        and counts.get(st.targets[0].id) == 1 and st.targets[0].id not in glob and is_set_expr(st.value):
+                    v = evaluate(st.value, env)
+                    if v:
+                        env[st.targets[0].id] = v
+            if not env and not cls_sets:
+                continue
+            exp = self
+            for fdef in [n for n in ast.walk(m.tree) if isinstance(n, ast.FunctionDef)]:
+                local_stored = _stored_names(fdef.body) | set(_params(fdef))
+
+                class T(ast.NodeTransformer):
+                    def visit_Compare(self, node):
+                        self.generic_visit(node)
+                        for i, (op, c) in enumerate(zip(node.ops, node.comparators)):
+                            if not isinstance(op, (ast.In, ast.NotIn)):
+                                continue
+                            if isinstance(c, ast.Name) and c.id in env and c.id not in local_stored:
+                                node.comparators[i] = lit(env[c.id], c)
+                                exp.stats['constants'] += 1
+                            elif isinstance(c, ast.Attribute) and isinstance(c.value, ast.Name) and c.attr in cls_sets:
+                                node.comparators[i] = lit(cls_sets[c.attr], c)
+                                exp.stats['constants'] += 1
+                            elif is_set_expr(c) or isinstance(c, ast.Set):
+                                v = evaluate(c, env)
+                                if v:
+                                    node.comparators[i] = lit(v, c)
+                        return node
+                T().visit(fdef)
+
     # ------------------------------------------------------------------ dispatch tables
     def const_dicts(self):
         """name -> ast.Dict for class-/module-level names bound exactly once in the package to a dict display with constant
@@ -2190,6 +2293,7 @@ class Expander:
         self.collect()
         self.rewrite_with_managers()
         self.substitute_constants()
+        self.substitute_charsets()
         self.expand_dispatch()
         self.unroll_table_loops()
         for rnd in range(MAX_ROUNDS):
@@ -2237,6 +2341,7 @@ def resubstitute_constants(modules):
     e = Expander(modules, load_baseline())
     e.collect()
     e.substitute_constants()
+    e.substitute_charsets()
     before = e.stats.get('local_literals', 0)
     e.substitute_local_literals()
     for m in modules.values():
